@@ -113,7 +113,7 @@ def collect_a(chk, pid, jobs, files):
 def part_a(chk, pid, thorough, rnd, domain):
     inv = ['C20_Computable', 'C20_Lands', 'C20_NotFurther', 'DomainSane']
     epoch, specs, days, tods = domain
-    res = chk.mc('mcA', 'Moment_MC.tla', dict(spec='MCSpec', constants={'Variant': q('fixed'), 'Days': '<- AllNowDays' if thorough else '<- QuickDays'}, invariants=inv))
+    res = chk.mc('mcA', 'Moment_MC.tla', dict(spec='MCSpec', constants={'Variant': q('fixed'), 'Days': '<- AllNowDays' if thorough else '<- QuickDays'}, invariants=inv), workers=core.NPROC if thorough else 4)
     chk.counters['delay_evaluations_in_model'] = res.distinct // (len(specs) + 1) * len(specs) * len(tods)
     if thorough:
         # the pinned transcription (snapshot commit) must violate: the model tells the two apart
@@ -122,7 +122,7 @@ def part_a(chk, pid, thorough, rnd, domain):
             raise core.Machinery('the pinned transcription of _delay satisfies the clauses: the model cannot tell the defect')
         chk.states -= pin.distinct
         chk.transitions -= pin.generated
-    return replay_a(chk, pid, rnd, domain, None if thorough else 30, 400 if thorough else 40)
+    return replay_a(chk, pid, rnd, domain, None if thorough else 24, 400 if thorough else 32)
 
 
 def replay_a(chk, pid, rnd, domain, ndays, nextra):
@@ -415,7 +415,7 @@ def run(pid, tier, seed, replay=None):
         'a node that is queued or executing when a moment passes is exempt from firing for that moment',
     ]
     return chk.finish(
-        '(a) every specification of the domain x clock instants (all 4384 in thorough; month boundaries + 30 seeded days in quick) + seeded random instants: '
+        '(a) every specification of the domain x clock instants (all 4384 in thorough; first and last two days of every month + 24 seeded days in quick) + seeded random instants: '
         'the real _delay under the injected clock, each record judged by TLC; non-trivial = records whose delay is not 0. '
         '(b) every transition of the bounded firing model (sampled in quick) as the input schedule reaching it, executed on the real schedule/farm code with a drain; '
         'non-trivial = schedules with at least one firing and one completion.'
